@@ -64,6 +64,9 @@ def inner_text(sub):
         return "alias zz"
     if k == "builtin-pipeline":
         return "alias zz | vp_st flt 0 | vp_st flt 0"
+    if k == "nested":
+        # the inner command's argument comes from a substitution of the other spelling (out.N<id> holds <id>)
+        return ("vp_out `vp_out N%s`" % i) if sub["form"] == "dollar" else ("vp_out $(vp_out N%s)" % i)
     if k == "notfound":
         return "vp_nonexistent_cmd"
     if k == "unparsable":
@@ -132,6 +135,9 @@ def run_case(case):
             if sub["inner"] == "failing":
                 with open(os.path.join(sb.vpdir, "rc.%s" % sub["id"]), "w") as f:
                     f.write("3")
+            if sub["inner"] == "nested":
+                with open(os.path.join(sb.vpdir, "out.N%s" % sub["id"]), "w") as f:
+                    f.write(sub["id"] + "\n")
     line, exp = build(case)
     r = run_cicada(sb, ["-c", line], timeout=20.0, budget=3000, env_extra={"NAME1": "n1val"})
     return line, exp, r, sb.records()
@@ -182,7 +188,7 @@ def symptom(case, exp, r, recs):
                 return "wrong-text"
     # inner stderr reaches the driver's stderr
     for sub in subs:
-        if sub["inner"] in ("simple", "pipeline", "failing", "var"):
+        if sub["inner"] in ("simple", "pipeline", "failing", "var", "nested"):
             if ("ERR-%s\n" % sub["id"]).encode() not in r.err:
                 return "inner-stderr-lost"
     for sub in subs:
@@ -241,7 +247,7 @@ def gen_case(rng, k):
         if lit:
             parts.append(("lit", lit))
         cls = rng.choice(list(OUTPUTS))
-        inner = rng.choice(["simple"] * 6 + ["pipeline", "failing", "var", "builtin", "builtin-pipeline", "notfound", "unparsable"])
+        inner = rng.choice(["simple"] * 6 + ["pipeline", "failing", "var", "builtin", "builtin-pipeline", "notfound", "unparsable", "nested", "nested"])
         parts.append(("sub", {"form": rng.choice(["dollar", "backquote"]), "inner": inner, "cls": cls,
                               "out": rng.choice(OUTPUTS[cls]), "id": "K%d" % i}))
     lit = rng.choice(lits)
